@@ -18,7 +18,7 @@
       [declares_zero_width text]  some line is [sort bitvec 0];
       [props_1bit sy = false]     a bad state or constraint is not one bit wide. *)
 From Coq Require Import List String NArith Bool.
-From Patronus Require Import SysClosed Btor2Parse Btor2Witness Btor2ParseProofs Btor2Refine Btor2NoCrash Btor2Fix.
+From Patronus Require Import SysClosed Btor2Parse Btor2Witness Btor2ParseProofs Btor2Refine Btor2NoCrash Btor2Fix Btor2FinalSpec Btor2Final.
 Import ListNotations.
 Open Scope N_scope.
 
@@ -118,4 +118,48 @@ Example C18_witnesses_rejected_by_fix :
   forallb (fun w => let '(dbg, text, _) := w in
                     match parse_text_v Fix dbg text with PErr => true | _ => false end) crash_witnesses = true /\
   forallb (fun w => match parse_text_v Fix (fst w) (snd w) with PErr => true | _ => false end) accept_witnesses = true.
+Proof. vm_compute. split; reflexivity. Qed.
+
+(** ** THE FINAL SYSTEM, spelled out.  [parse_text_v v dbg text] IS the system [parse_str] returns: the raw
+    system after [improve_state_names] and after the demotion of states without init and next to inputs
+    ([parse_lines_v = demote (rename_sys ren raw)]).  [final_well_typed fin] (Spec/Btor2FinalSpec.v):
+    every expression of the final system type-checks; inputs and state symbols are symbols; every remaining
+    state has an init or a next, and both have the state's type; bad states and constraints are one bit wide;
+    every symbol that occurs in any expression is an input or a state symbol OF THE FINAL SYSTEM; and the
+    declared symbols have pairwise different names.  Reader of /repo ([Fix]) and [Fix2], both build profiles. *)
+Theorem C18_final_accepted_well_typed :
+  forall v text dbg fin, is_fix v = true -> supported text = true ->
+    parse_text_v v dbg text = POk fin -> final_well_typed fin.
+Proof. exact text_final_well_typed. Qed.
+Print Assumptions C18_final_accepted_well_typed.
+
+(** where demotion matters for closedness: a state of the raw system without init and next is (renamed) among the
+    INPUTS of the final system and not among its states; every other state is (renamed) among the states.
+    Any text, any reader variant, any build profile. *)
+Theorem C18_demoted_among_inputs :
+  forall v dbg ls sy ren s,
+    parse_raw_v v dbg ls = POk (sy, ren) -> In s (s_states sy) ->
+    let fin := demote (rename_sys ren sy) in
+    (is_plain s = true -> In (rename ren (st_sym s)) (s_inputs fin) /\ ~ In (rename ren (st_sym s)) (map st_sym (s_states fin))) /\
+    (is_plain s = false -> In (rename_state ren s) (s_states fin)).
+Proof. exact demoted_among_inputs. Qed.
+Print Assumptions C18_demoted_among_inputs.
+
+(** Non-vacuity: a text with a demoted state that is read by the next function of another state, by a bad state
+    and by an output, renamed through an alias with a [$], and a second demoted state labelled like an input. *)
+Definition final_example_text : string :=
+  text_of ["1 sort bitvec 8"; "2 sort bitvec 1"; "3 input 1 a"; "4 state 1 d"; "5 state 1 s"; "6 state 1 a";
+           "7 add 1 3 4"; "8 next 1 5 7"; "9 output 4 o"; "10 uext 1 4 0 nice$name"; "11 eq 2 5 6"; "12 bad 11";
+           "13 uext 1 5 0 better"; "14 init 1 5 -4"]%string.
+
+Example C18_final_example :
+  supported final_example_text = true /\
+  match parse_text_v Fix true final_example_text, parse_text_v Fix false final_example_text with
+  | POk fin, POk fin' =>
+      String.eqb (String.concat "," (map sym_name (s_inputs fin))) "a,nice_name,a_0" &&
+      String.eqb (String.concat "," (map (fun s => sym_name (st_sym s)) (s_states fin))) "better" &&
+      String.eqb (String.concat "," (map sym_name (s_inputs fin'))) "a,nice_name,a_0" &&
+      sys_ok fin && (List.length (s_states fin') =? 1)%nat
+  | _, _ => false
+  end = true.
 Proof. vm_compute. split; reflexivity. Qed.
